@@ -1,5 +1,6 @@
 import Driver.Util
 import Driver.OpsC13
+import Driver.OpsRpu
 /-! `dovi_model`: the executable model behind the line protocol (one case per line in, one result per line out). -/
 open Driver
 
@@ -8,6 +9,7 @@ def step (line : String) : String :=
   match parts with
   | op :: _ =>
     if ["esc", "unesc", "hesc", "hunesc", "escdigest"].contains op then C13.run parts
+    else if op.startsWith "rpu." || op.startsWith "nalu." then RpuOps.run parts
     else "bad-op"
   | [] => "bad-op"
 
